@@ -18,7 +18,8 @@ META = {
              'compared with a reference fold computed on a load-time deep snapshot, and the loaded specification is '
              'deep-compared with the snapshot after every step; non-trivial = the language has a step redefined at '
              '>= 1 level and the history has >= 2 steps; distinct = digest(spec, history)'
-             '; added strata: bursts of 300-2500 lookups, sub-types that declare nothing, another language with the same names loaded in between, one AttackGraph object re-used for two languages'),
+             '; added strata: bursts of 300-2500 lookups, sub-types that declare nothing, another language with the same names loaded in between, one AttackGraph object re-used for two languages'
+             '; round 7: the first language graph of a case is built through one of four routes (dict, .mar archive rewritten at one path, saved specification, MAL source)'),
     'assumptions': ['reference fold in mtv/ref_sem.py (Lang.steps)'],
     'shards': {'quick': 8, 'thorough': 16},
     'quotas': {
